@@ -35,11 +35,73 @@ pub(crate) fn decode(
     reference: &[u8],
     data: &[u8],
 ) -> Result<Vec<Vec<u8>>, Box<dyn std::error::Error + Send + Sync>> {
+    // bitfield_rle trusts its input: a truncated varint makes it index past the end of the buffer
+    // and a run length is allocated up front, whatever it claims. Validate the stream first.
+    validate_rle(data)?;
+
     // decode the RLE encoding first
     let buf = bitfield_rle::decode(data)?;
 
     // decode the delta-encoding
     delta_decode(reference, &buf)
+}
+
+/// The largest delta-encoded buffer a well-formed packet can expand to: the sender keeps at most
+/// 128 unacknowledged inputs (plus the one just queued), each a 2-byte length prefix and up to
+/// `u16::MAX` bytes.
+const MAX_DECODED_LEN: usize = 129 * (u16::MAX as usize + 2);
+
+/// Upper bound for the number of inputs in one packet (twice the sender's pending-output limit).
+const MAX_INPUTS_PER_PACKET: usize = 256;
+
+/// Walks the run-length stream without decoding it: every varint must be complete, every literal
+/// block must lie inside `data`, and the decoded size must stay below [`MAX_DECODED_LEN`].
+fn validate_rle(data: &[u8]) -> Result<(), Box<dyn std::error::Error + Send + Sync>> {
+    let mut offset = 0;
+    let mut decoded_len: usize = 0;
+
+    while offset < data.len() {
+        // varint: 7 bits per byte, least significant group first, high bit = continuation
+        let mut value: u64 = 0;
+        let mut shift = 0;
+        loop {
+            let Some(&byte) = data.get(offset) else {
+                return Err("truncated varint in RLE stream".into());
+            };
+            offset += 1;
+            if shift > 56 {
+                return Err("oversized varint in RLE stream".into());
+            }
+            value |= u64::from(byte & 127) << shift;
+            shift += 7;
+            if byte & 128 == 0 {
+                break;
+            }
+        }
+
+        let len = if value & 1 == 1 {
+            // run of 0x00 / 0xFF bytes
+            value >> 2
+        } else {
+            // literal block
+            let len = value >> 1;
+            if len > (data.len() - offset) as u64 {
+                return Err("truncated literal block in RLE stream".into());
+            }
+            offset += len as usize;
+            len
+        };
+
+        decoded_len = match usize::try_from(len)
+            .ok()
+            .and_then(|len| decoded_len.checked_add(len))
+        {
+            Some(total) if total <= MAX_DECODED_LEN => total,
+            _ => return Err("RLE stream expands beyond the maximum packet size".into()),
+        };
+    }
+
+    Ok(())
 }
 
 fn delta_decode(
@@ -72,6 +134,12 @@ fn delta_decode(
 
         base = decoded.clone();
         output.push(decoded);
+
+        // a sender never has more unacknowledged inputs than this; a stream of empty inputs would
+        // otherwise expand a few bytes into millions of allocations
+        if output.len() > MAX_INPUTS_PER_PACKET {
+            return Err("too many inputs in one packet".into());
+        }
     }
 
     Ok(output)
